@@ -734,6 +734,14 @@ func init() {
 			A := int(inst>>18) & 0xff //GETA
 			RA := lbase + A
 			Sbx := int(inst&0x3ffff) - opMaxArgSbx //GETSBX
+			// the control values may be strings that convert to numbers
+			for i := 0; i < 3; i++ {
+				if str, ok := reg.Get(RA + i).(LString); ok {
+					if num, err := parseNumber(string(str)); err == nil {
+						reg.Set(RA+i, num)
+					}
+				}
+			}
 			if init, ok1 := reg.Get(RA).(LNumber); ok1 {
 				if step, ok2 := reg.Get(RA + 2).(LNumber); ok2 {
 					// +inline-call reg.SetNumber RA LNumber(init-step)
